@@ -9998,6 +9998,7 @@ func ruleEveryReturnedDirectoryIsWatched(c *core.Ctx) {
 		return g != nil && strings.HasSuffix(core.FullName(g), "fsnotify.Watcher).Add") && len(ce.Args) == 1
 	}
 	// judge: inside body, `holder` holds the result; report every Add of an element of it
+	var encl *ast.BlockStmt // body of the declaration under analysis: where local closures are defined
 	var judge func(owner string, info *types.Info, body *ast.BlockStmt, holder types.Object, outer []ast.Expr, depth int)
 	judge = func(owner string, info *types.Info, body *ast.BlockStmt, holder types.Object, outer []ast.Expr, depth int) {
 		mentions := func(e ast.Node, o types.Object) bool {
@@ -10132,6 +10133,36 @@ func ruleEveryReturnedDirectoryIsWatched(c *core.Ctx) {
 				}
 				return true
 			}
+			// a local closure that receives the result (`watchAll := func(dirs []string) error {...}`)
+			if depth < 2 {
+				if id, isID := ast.Unparen(ce.Fun).(*ast.Ident); isID && core.Callee(info, ce) == nil && encl != nil {
+					if fl, isLit := ast.Unparen(singleDefRHS(info, encl, id)).(*ast.FuncLit); isLit {
+						var ps []types.Object
+						for _, fld := range fl.Type.Params.List {
+							for _, nm := range fld.Names {
+								ps = append(ps, info.Defs[nm])
+							}
+						}
+						for ai, a := range ce.Args {
+							if identObj(info, a) != holder || ai >= len(ps) || ps[ai] == nil {
+								continue
+							}
+							var mine []ast.Expr
+							for _, cd := range conds {
+								if badLeaf(cd, elem) != nil {
+									mine = append(mine, cd)
+								}
+							}
+							if len(mine) > 0 {
+								n++
+								c.Bad(rule, fmt.Sprintf("%s/%s(%s)#%d", owner, id.Name, types.ExprString(a), n), ce.Pos(), fmt.Sprintf("the result reaches %s only when `%s`: a regeneration for which the test fails leaves a directory unwatched", id.Name, types.ExprString(mine[0])))
+							} else {
+								judge(owner+"/"+id.Name, info, fl.Body, ps[ai], nil, depth+1)
+							}
+						}
+					}
+				}
+			}
 			// a helper of the package that receives the result
 			if depth < 2 {
 				if f := core.Callee(info, ce); f != nil && core.InModule(f) && f.Origin() != giw {
@@ -10196,6 +10227,7 @@ func ruleEveryReturnedDirectoryIsWatched(c *core.Ctx) {
 				}
 				return true
 			})
+			encl = d.Body
 			judge(c.FuncName(d), info, body, holder, nil, 0)
 			return true
 		})
@@ -10372,16 +10404,14 @@ func ruleAliasNameOnlyForTheAliasedUnion(c *core.Ctx) {
 // unions used by a definition therefore precedes the statement that writes the definition's own entry (fix 107495d).
 func ruleUnionDtypesBeforeTheirUsers(c *core.Ctx) {
 	const rule = "DT1"
-	c.Rule(rule, "internal/python/types.writeGetDTypeFunc: in the loop over the type definitions the dtypes of the unions a definition uses are written before the definition's own dtype_map entry (entries are evaluated eagerly, in order, at import)", 1)
+	c.Rule(rule, "internal/python/types: in the loop over the type definitions that fills the generated dtype_map, the dtypes of the unions a definition uses are written before the definition's own entry (entries are evaluated eagerly, in order, at import)", 1)
 	p := c.Pkg("internal/python/types")
-	_, d, _ := c.Func("internal/python/types", "writeGetDTypeFunc")
-	if p == nil || d == nil {
-		c.Undecided(rule, "anchor/internal/python/types.writeGetDTypeFunc", 0, "anchor not found")
+	if p == nil {
+		c.Undecided(rule, "anchor/internal/python/types", 0, "package not found")
 		return
 	}
 	info := p.TypesInfo
-	// local closures that print a dtype_map entry for a union: their body handles *dsl.GeneralizedType and prints `dtype_map.setdefault`
-	printsEntry := func(n ast.Node) bool {
+	hasEntryLiteral := func(n ast.Node) bool {
 		hit := false
 		ast.Inspect(n, func(m ast.Node) bool {
 			if bl, ok := m.(*ast.BasicLit); ok && bl.Kind == token.STRING && strings.Contains(bl.Value, "dtype_map.setdefault(") {
@@ -10391,75 +10421,118 @@ func ruleUnionDtypesBeforeTheirUsers(c *core.Ctx) {
 		})
 		return hit
 	}
-	unionWriters := map[types.Object]bool{}
-	ast.Inspect(d.Body, func(m ast.Node) bool {
-		as, ok := m.(*ast.AssignStmt)
-		if !ok || len(as.Lhs) != 1 || len(as.Rhs) != 1 {
-			return true
-		}
-		fl, ok := as.Rhs[0].(*ast.FuncLit)
-		if !ok || !printsEntry(fl) {
-			return true
-		}
-		handlesUnion := false
-		ast.Inspect(fl, func(x ast.Node) bool {
+	mentionsIsUnion := func(n ast.Node) bool {
+		hit := false
+		ast.Inspect(n, func(x ast.Node) bool {
 			if se, ok := x.(*ast.SelectorExpr); ok && se.Sel.Name == "IsUnion" {
-				handlesUnion = true
+				hit = true
 			}
-			return true
+			return !hit
 		})
-		if handlesUnion {
-			if o := identObj(info, as.Lhs[0]); o != nil {
-				unionWriters[o] = true
+		return hit
+	}
+	// what a call does, following closures of the enclosing declaration and functions/methods of the package (depth 3):
+	// prints an entry? handles unions on the way?
+	var classify func(encl *ast.BlockStmt, ce *ast.CallExpr, depth int) (entry, union bool)
+	bodyOf := func(encl *ast.BlockStmt, ce *ast.CallExpr) ast.Node {
+		if f := core.Callee(info, ce); f != nil {
+			if f.Pkg() == p.Types {
+				if fd := c.Decl(f.Origin()); fd != nil && fd.Body != nil {
+					return fd.Body
+				}
+			}
+			return nil
+		}
+		if id, ok := ast.Unparen(ce.Fun).(*ast.Ident); ok && encl != nil {
+			if fl, ok := ast.Unparen(singleDefRHS(info, encl, id)).(*ast.FuncLit); ok {
+				return fl.Body
 			}
 		}
-		return true
-	})
-	n := 0
-	ast.Inspect(d.Body, func(m ast.Node) bool {
-		rs, ok := m.(*ast.RangeStmt)
-		if !ok {
-			return true
+		return nil
+	}
+	classify = func(encl *ast.BlockStmt, ce *ast.CallExpr, depth int) (bool, bool) {
+		entry := hasEntryLiteral(ce) // the literal is an argument of the call itself
+		union := false
+		b := bodyOf(encl, ce)
+		if b == nil || depth > 3 {
+			return entry, union
 		}
-		if se, ok := ast.Unparen(rs.X).(*ast.SelectorExpr); !ok || se.Sel.Name != "TypeDefinitions" {
-			return true
+		if mentionsIsUnion(b) {
+			union = true
 		}
-		lv := identObj(info, rs.Value)
-		if lv == nil {
-			return true
+		if hasEntryLiteral(b) {
+			entry = true
 		}
-		// positions, in the loop body, of the own entry and of the union writer called with the loop variable
-		var ownPos, unionPos token.Pos
-		ast.Inspect(rs.Body, func(x ast.Node) bool {
-			if _, isLit := x.(*ast.FuncLit); isLit {
-				return false
-			}
-			ce, ok := x.(*ast.CallExpr)
-			if !ok {
-				return true
-			}
-			if id, ok := ast.Unparen(ce.Fun).(*ast.Ident); ok && unionWriters[info.ObjectOf(id)] {
-				for _, a := range ce.Args {
-					if o := identObj(info, a); o != nil && (o == lv || o.Name() == lv.Name()) && (unionPos == token.NoPos || ce.Pos() < unionPos) {
-						unionPos = ce.Pos()
+		ast.Inspect(b, func(x ast.Node) bool {
+			if inner, ok := x.(*ast.CallExpr); ok && inner != ce {
+				e2, u2 := classify(encl, inner, depth+1)
+				if e2 {
+					entry = true
+					if u2 {
+						union = true
 					}
 				}
-				return true
-			}
-			if printsEntry(ce) && (ownPos == token.NoPos || ce.Pos() < ownPos) {
-				ownPos = ce.Pos()
 			}
 			return true
 		})
-		if ownPos == token.NoPos || unionPos == token.NoPos {
-			return true
+		return entry, union && entry
+	}
+	n := 0
+	for _, d := range c.AllDecls() {
+		if c.DeclPkg(d) != p || d.Body == nil || c.IsTestFile(d.Pos()) {
+			continue
 		}
-		n++
-		c.Check(unionPos < ownPos, rule, fmt.Sprintf("writeGetDTypeFunc/range %s#%d", types.ExprString(rs.X), n), rs.Pos(), "the unions of a definition are registered before the definition's own entry",
-			"the definition's own dtype_map entry is written before the entries of the unions it uses: an entry that calls get_dtype(Rec[Int32OrFloat32]) at import time (a field of a generic type instantiated with a union) fails with \"Cannot find dtype\" — the generated package does not import")
-		return true
-	})
+		ast.Inspect(d.Body, func(m ast.Node) bool {
+			var loopBody *ast.BlockStmt
+			var over ast.Expr
+			switch l := m.(type) {
+			case *ast.RangeStmt:
+				loopBody, over = l.Body, l.X
+			case *ast.ForStmt:
+				if be, ok := l.Cond.(*ast.BinaryExpr); ok {
+					if a, isLen := lenArg(info, be.Y); isLen {
+						loopBody, over = l.Body, a
+					}
+				}
+			}
+			if loopBody == nil {
+				return true
+			}
+			if se, ok := ast.Unparen(over).(*ast.SelectorExpr); !ok || se.Sel.Name != "TypeDefinitions" {
+				return true
+			}
+			var ownPos, unionPos token.Pos
+			ast.Inspect(loopBody, func(x ast.Node) bool {
+				if _, isLit := x.(*ast.FuncLit); isLit {
+					return false
+				}
+				ce, ok := x.(*ast.CallExpr)
+				if !ok {
+					return true
+				}
+				entry, union := classify(d.Body, ce, 0)
+				if !entry {
+					return true
+				}
+				if union {
+					if unionPos == token.NoPos || ce.Pos() < unionPos {
+						unionPos = ce.Pos()
+					}
+				} else if ownPos == token.NoPos || ce.Pos() < ownPos {
+					ownPos = ce.Pos()
+				}
+				return false
+			})
+			if ownPos == token.NoPos || unionPos == token.NoPos {
+				return true
+			}
+			n++
+			c.Check(unionPos < ownPos, rule, fmt.Sprintf("%s/loop over %s#%d", d.Name.Name, types.ExprString(over), n), m.Pos(), "the unions of a definition are registered before the definition's own entry",
+				"the definition's own dtype_map entry is written before the entries of the unions it uses: an entry that calls get_dtype(Rec[Int32OrFloat32]) at import time (a field of a generic type instantiated with a union) fails with \"Cannot find dtype\" — the generated package does not import")
+			return true
+		})
+	}
 	if n == 0 {
-		c.Undecided(rule, "anchor/loop over TypeDefinitions", d.Pos(), "no loop over the type definitions that writes both the own entry and the union entries was found")
+		c.Undecided(rule, "anchor/loop over TypeDefinitions", 0, "no loop over the type definitions that writes both the own entry and the union entries was found in internal/python/types")
 	}
 }
